@@ -731,12 +731,12 @@ func c19Scenario(id int, seed uint64, dir string) c19Case {
 			if len(cands) > 0 {
 				x.clientClose(cands[r.intn(len(cands))])
 			}
-		case w < 97:
+		case w < 95:
 			if !x.lclosed || r.chance(30) {
 				x.listenerClose(1 + r.intn(2))
 			}
 		default:
-			if len(live) > 1 || (len(live) == 1 && r.chance(30)) {
+			if len(live) > 1 || (len(live) == 1 && r.chance(50)) {
 				x.die(live[r.intn(len(live))])
 			}
 		}
